@@ -522,6 +522,28 @@ func checkC10(r *Run) {
 			k := in.(*ssa.Call)
 			key := FuncName(f) + "/write-operand"
 			pt, pcall := c.packedType(k.Call.Args[1])
+			if phi, isPhi := c.Resolve(k.Call.Args[1]).(*ssa.Phi); isPhi && (pt == "" || pcall == nil) {
+				// `var reply []byte` assigned a packed packet per case and written once below: every value that can arrive is a
+				// whole packet, or nil (nothing is written)
+				whole, n := true, 0
+				for _, lf := range phiLeaves(phi, map[ssa.Value]bool{}) {
+					lv := c.Resolve(lf.V)
+					if isNilConst(lv) {
+						continue
+					}
+					t, pc := c.packedType(lv)
+					if t == "" || pc == nil {
+						whole = false
+					}
+					pt = t
+					n++
+				}
+				if whole && n > 0 {
+					r3.OK(key, in.Pos(), "operand is, on every way it is assigned, nil or the whole result of a Pack()/pack() call")
+					return
+				}
+				pt, pcall = "", nil
+			}
 			if pt == "" || pcall == nil {
 				r3.Bad(key, in.Pos(), "write() is given %s, which is not the complete result of a Pack()/pack() call: a packet written in pieces can be interleaved with another writer's packet", describeVal(c.Resolve(k.Call.Args[1])))
 				return
